@@ -65,7 +65,7 @@ def readEvents : Nat → Nat → List Nat → Except String (List SEvent)
         match readVlq r1 with
         | none => .error "bad meta length"
         | some (len, r2) =>
-          if r2.length < len then .error "meta data truncated"
+          if (r2.take len).length < len then .error "meta data truncated"
           else if !metaLenOK typ len then .error "wrong meta length"
           else
             let data := r2.take len
@@ -106,7 +106,7 @@ def readChunks : Nat → Nat → List Nat → Except String (List (List SEvent))
     match bs with
     | 0x4D :: 0x54 :: 0x72 :: 0x6B :: l0 :: l1 :: l2 :: l3 :: r =>
       let len := be [l0, l1, l2, l3]
-      if r.length < len then .error "track chunk truncated"
+      if (r.take len).length < len then .error "track chunk truncated"
       else do
         let evs ← readEvents (len + 1) 0 (r.take len)
         let rest ← readChunks f n (r.drop len)
